@@ -54,7 +54,7 @@ def applicable(e, cap, na, nb):
 
 def uw(blk):
     d = {'ll_memset.0': 130, 'll_memcpy.0': 130, 'll_memmove.0': 130, 'll_memmove.1': 130}   # closures of the case-split lambdas are copied by value (up to ~16 captured references)
-    for f, n in (('d_sym_block', blk), ('lg_register', 2 * 6 + 4), ('lg_expect', 2 * 6 + 4)):   # LG_SLOTS = 2*CAP+2 <= 14
+    for f, n in (('d_sym_block', blk), ('lg_register', 2 * 6 + 4), ('lg_expect', 2 * 6 + 4), ('lg_marks', 4 * 14 + 4)):   # LG_SLOTS = 2*CAP+2 <= 14
         for i in range(4): d['%s.%d' % (f, i)] = n
     return d
 
